@@ -655,6 +655,7 @@ func run(r *mon.Run) {
 			wg.Add(1)
 			go func(gi int) {
 				defer wg.Done()
+				defer r.Recover("concurrent workload")
 				for k := 0; k < 20; k++ {
 					p := producers[(gi+k)%len(producers)]
 					b := p.f(gi*100 + k)
@@ -700,6 +701,7 @@ func run(r *mon.Run) {
 			yg := r.Rand(fmt.Sprintf("yield-hammer-%d", oi), gi)
 			go func(gi int) {
 				defer wg.Done()
+				defer r.Recover("concurrent workload")
 				<-start
 				for k := 0; k < 4; k++ {
 					record(gi+1, all[oi], "shared", "concurrent-hammer-8", shared[oi], &yieldingWriter{g: gi, yield: yg, order: ol, active: true})
@@ -732,6 +734,7 @@ func run(r *mon.Run) {
 				yg := r.Rand(fmt.Sprintf("yield-%d", batchNo), gi)
 				go func(gi int, seq []int) {
 					defer wg.Done()
+					defer r.Recover("concurrent workload")
 					<-start
 					for _, oi := range seq {
 						if same >= 0 {
